@@ -134,6 +134,19 @@ func init() {
 			for i := range s.World.Queues { // queues of different age: the remainder tie-break looks at creation time before the UID
 				s.World.Queues[i].AgeH = pick(t, "qage", 0, 0, 1, 5, 100)
 			}
+			if chance(t, "tiersfractions", 40) {
+				// several queue priority tiers among siblings and fractional GPU limits: a higher tier that ends satisfied can
+				// leave less than one whole GPU for the tiers below it
+				for i := range s.World.Queues {
+					if chance(t, "tierprio", 60) {
+						p := pick(t, "tierpriov", 50, 100, 200)
+						s.World.Queues[i].Priority = &p
+					}
+					if chance(t, "fraclimit", 40) {
+						s.World.Queues[i].GPU.Limit = pick(t, "fraclimitv", 0.5, 1.5, 2.5, 3.5)
+					}
+				}
+			}
 			if chance(t, "timebased", 45) { // time-based fair share: historical usage per queue and a k-value
 				s.Profile = "queue-trees-usage"
 				s.Config.KValue = pick(t, "kvalue", "", "0.5", "1", "2", "10")
